@@ -245,8 +245,19 @@ def gen_unit(u):
     add('mvg.set_cov_then_ln_f - %s %s %s %s' % (V(mu), M(cov), M(cov2), V(x)), max(cond, cond2), quad * max(1.0, cond), tag='history')
     bad = bad_cov(d)
     add('mvg.set_cov_then_ln_f - %s %s %s %s' % (V(mu), M(cov), bad, V(x)), cond, quad, tag='history-bad')
+    # a set_cov that passes the shape tests and fails in the Cholesky (indefinite matrix of the right size): the object must not change
+    eig = [rng.uniform(0.5, 2.0) for _ in range(d)]
+    eig[rng.randrange(d)] = -rng.uniform(0.5, 2.0)
+    indef = spd(d, eig=eig)[0] if d > 1 or rng.random() < 0.5 else [[-1.0]]
+    if d == 2 and rng.random() < 0.3:
+        indef = [[1.0, 2.0], [2.0, 1.0]]
+    add('mvg.set_cov_then_ln_f - %s %s %s %s' % (V(mu), M(cov), M(indef), V(x)), cond, quad, tag=('setfail', cov))
+    # Cholesky constructors and the parameter round trip
+    add('mvg.from_chol - %s %s %s' % (V(mu), M(cov), V(x)), cond, quad, tag=('fromchol', cov, cond))
+    if rng.random() < 0.15:
+        add('mvg.from_chol - %s %s %s' % (V(gvec(d + 1)), M(cov), V(x)), cond, quad)
     mu2 = gvec(d if rng.random() < 0.6 else max(0, d + rng.choice([-1, 1, 2])))
-    add('mvg.set_mu - %s %s %s' % (V(mu), M(cov), V(mu2)))
+    add('mvg.set_mu - %s %s %s' % (V(mu), M(cov), V(mu2)), tag=('setmu', mu, cov, mu2))
     # statistic
     k = rng.randrange(0, n + 1) if n else 0
     idx = rng.sample(range(n), k) if n else []
@@ -254,6 +265,13 @@ def gen_unit(u):
         idx = list(range(n))
         rng.shuffle(idx)
     add('mvgstat.observe_forget - %s %s' % (M(data, n, d), ' '.join(['L%d' % len(idx)] + [str(i) for i in idx])), 1.0, n * dm * dm, tag='stat')
+    if n >= 2:      # forget down to exactly ONE remaining observation, and down to none (the two branches of `forget`)
+        order = list(range(n))
+        rng.shuffle(order)
+        for keep in (1, 0):
+            idx = order[:n - keep]
+            add('mvgstat.observe_forget - %s %s' % (M(data, n, d), ' '.join(['L%d' % len(idx)] + [str(i) for i in idx])), 1.0, n * dm * dm,
+                tag=('forget_to', keep, [data[i] for i in order[n - keep:]]))
     # inverse Wishart
     scale, cs = spd(d)
     df = d + rng.choice([0, 0, 1, 2, 3, 10, 50])
@@ -426,8 +444,86 @@ def run(tier='quick', seed=15, n=None, harness=None, driver=None):
         mag = max([1.0] + [abs(v) for v in x_i])
         if len(x_i) != len(x_m) or any(not close(p, q, 1e-12, mag) for p, q in zip(x_i, x_m)):
             mism.append((l, a, b, cond))
+    # ------------------------------------------------------------------ NIW draws: variates recovered from the implementation, replayed in the model
+    nl, ninfo = [], []
+    for u in range(max(10, N // 2)):
+        d = 1 + (u % 5)
+        scale, cs = spd(d, cond=10 ** rng.choice([0, 1, 2]), scale=1.0)
+        kk = [0.25, 1.0, 4.0, 25.0, 10 ** rng.uniform(-1, 1)][u % 5] if u % 2 == 0 else [4.0, 0.25, 25.0, 2.0, 1.0][(u // 2) % 5]
+        df = d + 2 + rng.randrange(0, 6)
+        niw = niw_tokens(gvec(d, 3.0), kk, df, scale)
+        nl.append('niw.draw_with_z - %s %d' % (niw, rng.randrange(1 << 62)))
+        ninfo.append((niw, d, df, cs, kk))
+    ni = pipe(H, nl)
+    nml = []
+    for (niw, d, df, cs, kk), a in zip(ninfo, ni):
+        t = a.split()
+        nz = 3 + (df + 1) * d
+        nml.append('niw.draw_z - %s %s' % (niw, ' '.join(t[:nz])))
+    nm_ = pipe(D, nml)
+    for (niw, d, df, cs, kk), a, b, hline in zip(ninfo, ni, nm_, nl):
+        ndraw += 1
+        t = a.split()
+        rest = ' '.join(t[3 + (df + 1) * d:])
+        if compare(rest, b, 1e3 * cs * cs) is None:        # two inversions and a Cholesky on a random scatter matrix: loose, a wrong divisor is O(1)
+            # reported line = the harness line (replayable); model answer = `niw.draw_z` on the variates the harness printed
+            mism.append((hline, '(k = %r) <mu> <cov> = ' % kk + rest, '(niw.draw_z on the same variates) ' + b, cs))
     # ------------------------------------------------------------------ implementation against the statement of the property
     findings = collections.defaultdict(list)
+    # scaled Mahalanobis distance of the drawn mean: k (μ−μ0)ᵀ Σ⁻¹ (μ−μ0) ~ χ²_d whatever k, mean d (6σ of the Monte-Carlo error)
+    nmc = 3000
+    hl, hinfo = [], []
+    for d in (1, 2, 3, 4):
+        for kk in (0.25, 1.0, 4.0, 25.0):
+            scale, cs = spd(d, cond=10.0, scale=1.0)
+            hl.append('niw.draw_maha - %s %d %d' % (niw_tokens(gvec(d, 2.0), kk, d + 3, scale), rng.randrange(1 << 62), nmc))
+            hinfo.append((d, kk))
+    ho = pipe(H, hl)
+    for (d, kk), a, l in zip(hinfo, ho, hl):
+        m = floats(a)[0] if floats(a) else NAN
+        if not abs(m - d) <= 6.0 * math.sqrt(2.0 * d / nmc):
+            findings['niw_draw_mean_scale'].append('%s -> mean of k·(μ−μ0)ᵀΣ⁻¹(μ−μ0) over %d draws = %r, expected %d ± %.3f (k = %r)'
+                                                   % (l, nmc, m, d, 6.0 * math.sqrt(2.0 * d / nmc), kk))
+    # implementation-only state checks: failing setters leave the object unchanged; Cholesky constructors report Σ; params round trip
+    for (line, cond, mag, tag), a in zip(cases, oi):
+        if not isinstance(tag, tuple):
+            continue
+        if tag[0] == 'setfail' and a.startswith('E:'):
+            d = len(tag[1])
+            fl = floats(a)
+            cov_after = fl[2 + d:2 + d + d * d]
+            flat = [v for r in tag[1] for v in r]
+            if cov_after != flat or not a.endswith(' T'):
+                findings['failed_set_cov_mutates'].append('%s -> %s' % (line, a))
+        if tag[0] == 'setmu' and a.startswith('E:'):
+            fl = floats(a)
+            if fl[:len(tag[1])] != list(tag[1]):
+                findings['failed_set_mu_mutates'].append('%s -> %s' % (line, a))
+        if tag[0] == 'fromchol' and not a.startswith(('E', 'N', 'P')):
+            cov, cond_ = tag[1], tag[2]
+            d = len(cov)
+            fl = floats(a)
+            flat = [v for r in cov for v in r]
+            mx = max(abs(v) for v in flat)
+            ca, cb = fl[:d * d], fl[d * d:2 * d * d]
+            var, cr = fl[2 * d * d + 2:3 * d * d + 2], fl[3 * d * d + 2:4 * d * d + 2]
+            flags = [t for t in a.split() if t in ('T', 'F')]
+            if any(abs(p - q) > 1e-12 * cond_ * mx for p, q in zip(ca, flat)) or any(abs(p - q) > 1e-12 * cond_ * mx for p, q in zip(cb, flat)) \
+                    or var != cb:
+                findings['new_cholesky_cov_ne_sigma'].append('%s -> %s' % (line, a))
+            if flags[:1] != ['T']:
+                findings['new_cholesky_unchecked_ne_checked'].append('%s -> %s' % (line, a))
+            if cr != flat or flags[1:2] != ['T']:
+                findings['params_roundtrip_ne'].append('%s -> %s' % (line, a))
+        if tag[0] == 'forget_to' and floats(a):
+            keep, rem = tag[1], tag[2]
+            toks = a.split()
+            d = int(toks[1][1:])
+            sx = floats(a)[:d]
+            want = rem[0] if keep == 1 else [0.0] * d
+            mg = max([1.0] + [abs(v) for v in floats(a)])
+            if toks[0] != str(keep) or any(abs(p - q) > 1e-9 * mg for p, q in zip(sx, want)):
+                findings['forget_to_%d_wrong' % keep].append('%s -> %s' % (line, a))
     byline = {c[0]: (a, b) for c, a, b in zip(cases, oi, om)}
     prop_lines, prop_meta = [], []
     for u in range(max(6, N // 3)):
@@ -537,7 +633,7 @@ def run(tier='quick', seed=15, n=None, harness=None, driver=None):
             'findings': {k: list(v) for k, v in findings.items()},
             'samples': ['%s -> %s' % (c[0][:160], a[:60]) for c, a in list(zip(cases, oi))[:4]],
             'worst': dict(worst), 'errors': dict(errs), 'accuracy': dict(acc),
-            'counts': {'corr': len(cases), 'draws': ndraw, 'probes': len(prop_lines) + len(second), 'statistical': len(sl)}}
+            'counts': {'corr': len(cases), 'draws': ndraw, 'probes': len(prop_lines) + len(second), 'statistical': len(sl) + len(hl)}}
 
 
 def main():
